@@ -546,8 +546,8 @@ func c17Find(b *node.Browser, path string) (idx int, perr string) {
 // C17 emits: exhaustive 8-bit tables, boundary tables for the wider formats, decimals, strings,
 // binaries, booleans, enums, identityrefs; key tuples through CompareVals/EqualVals; keyed lookups.
 func C17(ctx *core.Ctx) error {
-	ctx.Imports = "Val.Model Check.C17Check"
-	ctx.Rule = "tables: all ordered pairs of a value set per format (8-bit formats: the whole range; wider: boundary set + random); tuples: random key tuples of 1-3 values; lookups: Find(l=key) for every present and 3 absent keys on random lists. distinct = by SHA-256 of the case term; non-trivial = table with >1 value, tuple of >=1 value, lookup on a list with >1 row"
+	ctx.Imports = "Val.Model Val.History Check.C17Check"
+	ctx.Rule = "tables: all ordered pairs of a value set per format (8-bit formats: the whole range; wider: boundary set + random); tuples: random key tuples of 1-3 values; lookups: Find(l=key) for every present and 3 absent keys on random lists; histories: 3-8 keyed find/delete/upsert requests through ONE live list selection over a slice of struct values / struct pointers / maps, rows read back from the Go slice after each. distinct = by SHA-256 of the case term; non-trivial = table with >1 value, tuple of >=1 value, lookup on a list with >1 row, history with a delete and another request"
 	r := gen.New(ctx.Seed)
 	extra := ctx.Scale(8, 60)
 	idx := 0
@@ -649,6 +649,9 @@ func C17(ctx *core.Ctx) error {
 			ctx.Count(fmt.Sprintf("tuple:len%d", l))
 		}
 		if err := c17Lookups(ctx, r.Fork(6), ctx.Scale(40, 800)); err != nil {
+			return err
+		}
+		if err := c17History(ctx, r.Fork(7), ctx.Scale(150, 3000)); err != nil {
 			return err
 		}
 	}
